@@ -456,6 +456,11 @@ func (u *Unit) execAssign(st *State, x *ast.AssignStmt) {
 			if kt := u.typeOf(ix.Index); kt != nil {
 				u.runAnchorsNamed(st, "mapstore:"+exprText(ix.X), l.Pos(), map[string]Value{"$k": scalar(kt, lv.idx), "$v": cv})
 			}
+		} else if ok && lv.kind == lvMem && len(u.frames) == 1 {
+			// anchor "elemstore:<slice expression>": $k the index of the element just stored
+			if _, isSlice := u.typeOf(ix.X).Underlying().(*types.Slice); isSlice {
+				u.runAnchorsNamed(st, "elemstore:"+exprText(ix.X), l.Pos(), map[string]Value{"$k": u.eval(st, ix.Index)})
+			}
 		}
 	}
 }
@@ -827,7 +832,7 @@ func (u *Unit) anchorInRegion(anchor string, nodes []ast.Node) bool {
 	if anchor == "return" || anchor == "wait" || anchor == "entry" || anchor == "returned" {
 		known = true
 	}
-	if strings.HasPrefix(anchor, "afterstmt:") || strings.HasPrefix(anchor, "mapstore:") {
+	if strings.HasPrefix(anchor, "afterstmt:") || strings.HasPrefix(anchor, "mapstore:") || strings.HasPrefix(anchor, "elemstore:") {
 		// statement anchors: look for the inc/dec statement or the map store they name
 		hit := false
 		for _, n := range nodes {
@@ -845,6 +850,10 @@ func (u *Unit) anchorInRegion(anchor string, nodes []ast.Node) bool {
 					for _, l := range x.Lhs {
 						if ix, ok := ast.Unparen(l).(*ast.IndexExpr); ok {
 							t := "mapstore:" + exprText(ix.X)
+							if anchor == t || anchor == u.stableText(t) {
+								hit = true
+							}
+							t = "elemstore:" + exprText(ix.X)
 							if anchor == t || anchor == u.stableText(t) {
 								hit = true
 							}
